@@ -64,6 +64,7 @@ func (sc *samplingCoordinator) run(ctx context.Context, cp checkpoint) {
 	for _, wk := range cp.Workers {
 		sc.runWorker(ctx, sc.state.newJob(wk.JobType, wk.From, wk.To))
 	}
+	verifCoord(sc, "resume")
 
 	for {
 		for !sc.concurrencyLimitReached() {
@@ -74,6 +75,7 @@ func (sc *samplingCoordinator) run(ctx context.Context, cp checkpoint) {
 			sc.runWorker(ctx, next)
 		}
 
+		verifCoord(sc, "select")
 		select {
 		case head := <-sc.updHeadCh:
 			if sc.state.isNewHead(head.Height()) {
@@ -84,12 +86,17 @@ func (sc *samplingCoordinator) run(ctx context.Context, cp checkpoint) {
 				// run worker without concurrency limit restrictions to reduced delay
 				sc.metrics.observeNewHead(ctx)
 			}
+			verifCoord(sc, "head", "h", head.Height())
 		case res := <-sc.resultCh:
 			sc.state.handleResult(res)
+			verifCoord(sc, "result", "id", res.id)
 		case wg := <-sc.waitCh:
 			wg.Wait()
+			verifCoord(sc, "poke")
 		case <-ctx.Done():
+			verifCoord(sc, "ctxdone")
 			sc.workersWg.Wait()
+			verifCoord(sc, "gone")
 			sc.indicateDone()
 			return
 		}
@@ -100,6 +107,7 @@ func (sc *samplingCoordinator) run(ctx context.Context, cp checkpoint) {
 func (sc *samplingCoordinator) runWorker(ctx context.Context, j job) {
 	w := newWorker(j, sc.getter, sc.sampleFn, sc.metrics)
 	sc.state.putInProgress(j.id, w.getState)
+	verifCoord(sc, "spawn", "id", j.id, "type", string(j.jobType), "from", j.from, "to", j.to)
 
 	// launch worker go-routine
 	sc.workersWg.Add(1)
